@@ -318,6 +318,9 @@ class Evaluator:
                     srcs = [self.ev(a, ctor, obj, env, depth) for a in ((init.get('args') or init.get('es') or []) if init is not None and init['k'] in ('ctor', 'init') else ([init] if init is not None else []))]
                     obj[tgt['f']] = srcs[0] if len(srcs) == 1 else tuple(srcs)
                     continue
+            if st.get('s') == 'expr' and e is not None and e['k'] == 'asg':
+                self.exec_stmt(st, ctor, obj, env, depth)      # a plain assignment to a field of an object in reach (raises NotPure otherwise)
+                continue
             raise NotPure('constructor body of %s: %s' % (ctor.short, ir.pp_stmt(st)[:80]))
         return obj
 
